@@ -120,10 +120,45 @@ def c02_rejected_class_assignment_copy():
     return None if B.x == 5 and 'x' not in B.__dict__ else f"after the rejected B.x = 'bad': A.x = 5 gives B.x == {B.x} (B has its own copy: {'x' in B.__dict__})"
 
 
+def c08_relink_per_instance_false():
+    """c4d8cb2: with per_instance=False the Parameter's owner is the class, and `__set__` relinked through
+    `self.owner.param._update_ref` -> AttributeError on a late link, a relink and (since c44323d) a plain override"""
+    class S(param.Parameterized):
+        v = param.Integer(1)
+        w = param.Integer(5)
+    class T(param.Parameterized):
+        a = param.Integer(0, allow_refs=True, per_instance=False)
+    s = S()
+    problems = []
+    t = T()
+    try:
+        t.a = s.param.v                          # late link
+        s.v = 2
+        if t.a != 2:
+            problems.append(f'late link does not follow its source: t.a == {t.a}')
+        t.a = s.param.w                          # relink
+        s.v = 3
+        s.w = 6
+        if t.a != 6 or s.param.watchers.get('v', {}).get('value'):
+            problems.append(f'relink: t.a == {t.a}, watchers left on the old source: {s.param.watchers.get("v")}')
+        t.a = 9                                  # plain override of a linked value
+        s.w = 7
+        if t.a != 9 or 'a' in t._param__private.refs:
+            problems.append(f'override: t.a == {t.a}, refs {list(t._param__private.refs)}')
+    except AttributeError as e:
+        problems.append(f'assignment to the linked per_instance=False parameter raised AttributeError: {e}')
+    t2 = T(a=s.param.v)                          # constructor link, then override
+    try:
+        t2.a = 4
+    except AttributeError as e:
+        problems.append(f'override of a constructor link raised AttributeError: {e}')
+    return '; '.join(problems) or None
+
+
 if __name__ == '__main__':
     for f in [c03_slot_watcher_list_mutated, c03_slot_watcher_registered_in_callback, c16_selector_schema_unnamed_object,
               c18_remove_equal_not_identical, c18_extend_iterator, c18_update_mapping, c18_pop_default,
-              c05_class_trigger_inherited_event, c02_rejected_class_assignment_copy]:
+              c05_class_trigger_inherited_event, c02_rejected_class_assignment_copy, c08_relink_per_instance_false]:
         try: r = f()
         except Exception as e: r = f'demo crashed: {type(e).__name__}: {e}'
         print(f'{f.__name__:44s}', 'DEFECT: ' + r if r else 'ok')
